@@ -23,8 +23,17 @@ func vC07AacFrame(r *vRng) []byte {
 
 func vC07AacStream(r *vRng) []byte {
 	var out []byte
-	for i, n := 0, r.rng(1, 4); i < n; i++ {
-		out = append(out, vC07AacFrame(r)...)
+	for i, n := 0, r.rng(1, 5); i < n; i++ {
+		f := vC07AacFrame(r)
+		if r.chance(1, 4) && len(f) >= 7 {
+			// a later frame whose 13-bit frame_length contradicts its header: 0..9 (below the header
+			// size, the uint16 subtraction wraps), or far beyond what follows
+			fl := r.pickInt(0, 1, 6, 7, 8, 9, 10, 8191)
+			f[3] = f[3]&0xfc | byte(fl>>11)&3
+			f[4] = byte(fl >> 3)
+			f[5] = f[5]&0x1f | byte(fl<<5)
+		}
+		out = append(out, f...)
 	}
 	return out
 }
@@ -99,7 +108,7 @@ func TestVerifC07Aac(t *testing.T) {
 		{name: "aac_SampleRateIndex_ToHz", widths: []int{8}, call: func(a []int64) vSx { return vI(SampleRateIndex(a[0]).ToHz()) }},
 	}
 	fams := []*vC07Fam{
-		{name: "aac-dense-frames", dec: "aac.adts", build: func(n int) []byte {
+		{name: "aac-dense-frames", dec: "aac.adts", cost: "aac.adts", build: func(n int) []byte {
 			var out []byte
 			for len(out)+8 <= n {
 				out = append(out, 0xff, 0xf1, 0x50, 0x80, 0x01, 0x1f, 0xfc, 0x00)
